@@ -42,7 +42,7 @@ def run_demo(d, binary):
         pkg = "internal/ergo"
         dst = os.path.join(WT, pkg, "zz_demo_test.go")
         shutil.copy(os.path.join(d, "demo_test.go"), dst)
-        rc, out = sh("go test -tags verif -vet=off -count=1 -run 'TestMut|Demo|Seed' ./%s/" % pkg)
+        rc, out = sh("go test -tags verif -vet=off -count=1 -run 'TestMut|Demo|Seed|TestC[0-9][0-9]M' ./%s/" % pkg)
         os.remove(dst)
         return rc, out[-1500:]
     return None, "no demo"
